@@ -76,6 +76,12 @@ type fakeStream struct {
 	wlimit  int
 	written []byte
 	writes  int
+	// wmode "gate": the first Write takes wsplit bytes, reports that it was entered, and takes the
+	// rest of p only when release is closed (a synchronous pipe / flow-controlled stream whose
+	// receiver is slow). It never keeps p after it returned. Later writes are taken at once.
+	wsplit  int
+	entered chan struct{}
+	release chan struct{}
 }
 
 func newFakeStream(c *hcase, chunks [][]byte) *fakeStream {
@@ -176,6 +182,20 @@ func (s *fakeStream) Write(p []byte) (int, error) {
 	s.mtx.Lock()
 	defer s.mtx.Unlock()
 	s.writes++
+	if s.wmode == "gate" && s.writes == 1 {
+		k := min(s.wsplit, len(p))
+		s.written = append(s.written, p[:k]...)
+		s.mtx.Unlock()
+		close(s.entered)
+		select {
+		case <-s.release:
+		case <-s.closedCh:
+		case <-time.After(waitLimit):
+		}
+		s.mtx.Lock()
+		s.written = append(s.written, p[k:]...)
+		return len(p), nil
+	}
 	switch s.wmode {
 	case "fail":
 		n := min(s.wlimit, len(p))
@@ -1437,6 +1457,263 @@ func (e *engine) runOpen() {
 	}
 }
 
+// decodeRef decodes a stream-establish header stated directly on the wire format (varint length,
+// field 1 length-delimited); ok only for exactly that shape.
+func decodeRef(wire []byte) (pid []byte, rest []byte, ok bool) {
+	n, k := pbl.ConsumeVarint(wire)
+	if k <= 0 || uint64(len(wire)-k) < n {
+		return nil, nil, false
+	}
+	body, rest := wire[k:k+int(n)], wire[k+int(n):]
+	if len(body) == 0 {
+		return nil, rest, true
+	}
+	if body[0] != 0x0a {
+		return nil, nil, false
+	}
+	m, j := pbl.ConsumeVarint(body[1:])
+	if j <= 0 || uint64(len(body)-1-j) != m {
+		return nil, nil, false
+	}
+	return body[1+j:], rest, true
+}
+
+// runConcurrentOpen: several openers with DIFFERENT protocol IDs inside the real OpenMountedStream at
+// the same time (on one link, on several links of one controller, on links of both controllers),
+// each on a stream whose Write takes the header in two steps with the second step only after the
+// other openers have marshalled and (some of them) finished theirs. What each opener's stream
+// received is exactly the header of THAT opener's protocol ID, the payload written afterwards
+// follows unchanged, and the receiving side dispatches it under that ID. Half of the rounds run
+// with GOMAXPROCS(1) (per-P caches shared by all openers), half with the default.
+func (e *engine) runConcurrentOpen() {
+	type opener struct {
+		X       *side
+		fl      *fakeLink
+		ml      link.MountedLink
+		pid     []byte
+		hdrRef  []byte
+		s       *fakeStream
+		done    chan string
+		ms      link.MountedStream
+		oerr    error
+		hdrSnap []byte
+		payload []byte
+		op      string
+		model   string
+	}
+	rounds := 12 * e.a.Scale
+	for r := 0; r < rounds; r++ {
+		k := 2 + r%3
+		oneProc := r%2 == 0
+		layout := r % 3         // 0: one link; 1: own links, one controller; 2: own links, both controllers
+		lenClass := (r / 2) % 4 // 0: equal lengths; 1: growing; 2: shrinking; 3: random
+		lateFull := (r/3)%2 == 0
+		ops := make([]*opener, k)
+		var rels []func()
+		bad := ""
+		base := e.honestPid(3 + e.rng.Intn(30))
+		for i := range ops {
+			o := &opener{X: e.A, done: make(chan string, 1)}
+			if layout == 2 && i%2 == 1 || layout != 2 && r%4 >= 2 {
+				o.X = e.B
+			}
+			extra := 0
+			switch lenClass {
+			case 1:
+				extra = 5 * i
+			case 2:
+				extra = 5 * (k - 1 - i)
+			case 3:
+				extra = e.rng.Intn(60)
+				if r%6 == 5 && i == 0 {
+					extra = 150 + e.rng.Intn(100) // longer than a small scratch buffer
+				}
+			}
+			o.pid = append(append(append([]byte(nil), base...), []byte(strings.Repeat("x", extra))...), []byte(fmt.Sprintf("/c%d.%d", r%10, i))...)
+			o.hdrRef = marshalRef(o.pid)
+			o.payload = e.rng.Bytes(1 + e.rng.Intn(12))
+			if i > 0 && layout == 0 {
+				o.fl, o.ml = ops[0].fl, ops[0].ml
+			} else {
+				_, remote := e.freshPeers()
+				e.nextUU++
+				o.fl = newFakeLink(e.nextUU, o.X.peerID, remote)
+				var rel func()
+				o.ml, rel, bad = e.establish(o.X, o.fl, (r+i)%2 == 0)
+				if bad != "" {
+					break
+				}
+				rels = append(rels, rel)
+			}
+			o.s = newFakeStream(nil, nil)
+			o.s.entered, o.s.release = make(chan struct{}), make(chan struct{})
+			if !(lateFull && i == k-1) {
+				o.s.wmode = "gate"
+				o.s.wsplit = []int{0, 1, len(o.hdrRef) / 2, len(o.hdrRef) - 1}[(r+i)%4]
+			}
+			o.op = fmt.Sprintf("incoming.open local=%s remote=%s uuid=%d pid=%s wr=full", lib.Hex([]byte(o.fl.local)), lib.Hex([]byte(o.fl.remote)), o.fl.uuid, lib.Hex(o.pid))
+			o.model = e.m.Query(o.op)
+			ops[i] = o
+		}
+		tag := fmt.Sprintf(" # concurrent openers round %d: %d openers layout=%d lens=%d oneproc=%v latefull=%v", r, k, layout, lenClass, oneProc, lateFull)
+		if bad != "" {
+			e.rep.Compare("incoming.open"+tag, "established link is yielded", bad, "open.setup", "incoming.open:setup", bad)
+			for _, rel := range rels {
+				rel()
+			}
+			continue
+		}
+		prevProcs := 0
+		if oneProc {
+			prevProcs = runtime.GOMAXPROCS(1)
+		}
+		// start the openers one after the other: each is inside Write (or, for the ungated last one, has
+		// returned) before the next begins
+		for _, o := range ops {
+			o := o
+			o.fl.mtx.Lock()
+			o.fl.nextOpen = o.s
+			o.fl.mtx.Unlock()
+			go func() {
+				o.done <- lib.Recover(func() string {
+					o.ms, o.oerr = o.ml.OpenMountedStream(e.ctx, protocol.ID(o.pid), stream.OpenOpts{})
+					o.hdrSnap = o.s.wrote()
+					return ""
+				})
+			}()
+			if o.s.wmode == "gate" {
+				select {
+				case <-o.s.entered:
+				case res := <-o.done:
+					o.done <- res
+				case <-time.After(waitLimit):
+				}
+			} else {
+				select {
+				case res := <-o.done:
+					o.done <- res
+				case <-time.After(waitLimit):
+				}
+			}
+		}
+		// release the blocked writers: forward, backward or shuffled
+		order := make([]int, k)
+		for i := range order {
+			order[i] = i
+		}
+		switch r % 3 {
+		case 1:
+			for i, j := 0, k-1; i < j; i, j = i+1, j-1 {
+				order[i], order[j] = order[j], order[i]
+			}
+		case 2:
+			e.rng.Shuffle(k, func(i, j int) { order[i], order[j] = order[j], order[i] })
+		}
+		fails := make([]string, k)
+		for _, i := range order {
+			o := ops[i]
+			close(o.s.release)
+			select {
+			case fails[i] = <-o.done:
+			case <-time.After(waitLimit + 5*time.Second):
+				fails[i] = "hang"
+			}
+			if fails[i] == "" && o.oerr == nil && o.ms != nil {
+				// the application's first bytes
+				_, _ = o.ms.GetStream().Write(o.payload)
+			}
+		}
+		if oneProc {
+			runtime.GOMAXPROCS(prevProcs)
+		}
+		for i, o := range ops {
+			var mons []string
+			set := func(s string) { mons = append(mons, s) }
+			who := fmt.Sprintf("opener %d of %d concurrent openers", i+1, k)
+			mounted := "none"
+			if o.oerr == nil && o.ms != nil {
+				a := "0"
+				if o.s.armed() {
+					a = "1"
+				}
+				mounted = fmt.Sprintf("%s/%s/%s/%s/%d/-/%s", lib.Hex([]byte(o.ms.GetProtocolID())), lib.Hex([]byte(o.ms.GetPeerID())),
+					lib.Hex([]byte(o.ms.GetLink().GetLocalPeer())), lib.Hex([]byte(o.ms.GetLink().GetRemotePeer())), o.ms.GetLink().GetLinkUUID(), a)
+			}
+			cl := "0"
+			if o.s.closed() {
+				cl = "1"
+			}
+			impl := fmt.Sprintf("opened=1 written=%s mounted=%s closed=%s", lib.Hex(o.hdrSnap), mounted, cl)
+			if fails[i] != "" {
+				impl = fails[i]
+				set(who + ": OpenMountedStream did not return normally: " + fails[i])
+			}
+			wire := o.s.wrote()
+			if fails[i] == "" {
+				if o.oerr != nil || o.ms == nil {
+					set(who + ": OpenMountedStream failed although the link opened a stream and the write succeeded")
+				} else {
+					if o.ms.GetStream() != stream.Stream(o.s) {
+						set(who + ": the mounted stream wraps another stream than the one the link opened for it")
+					}
+					if string(o.ms.GetProtocolID()) != string(o.pid) || o.ms.GetPeerID() != o.fl.remote {
+						set(fmt.Sprintf("%s: the mounted stream reports protocol %s peer %s but %s was requested on a link to %s", who, q([]byte(o.ms.GetProtocolID())), q([]byte(o.ms.GetPeerID())), q(o.pid), q([]byte(o.fl.remote))))
+					}
+					if o.s.closed() || o.s.armed() {
+						set(who + ": OpenMountedStream returned a stream that is closed or has a deadline armed")
+					}
+				}
+				if string(o.hdrSnap) != string(o.hdrRef) {
+					what := "which is no header"
+					if got, _, ok := decodeRef(o.hdrSnap); ok {
+						what = "which names protocol " + q(got)
+						for j, p := range ops {
+							if j != i && string(got) == string(p.pid) {
+								what += fmt.Sprintf(" (the ID opener %d asked for)", j+1)
+							}
+						}
+					}
+					fd := 0
+					for fd < len(o.hdrSnap) && fd < len(o.hdrRef) && o.hdrSnap[fd] == o.hdrRef[fd] {
+						fd++
+					}
+					what += fmt.Sprintf("; first difference at byte %d of %d", fd, len(o.hdrRef))
+					set(fmt.Sprintf("%s asked for protocol %s (header %s) but its stream received %s, %s: a header must reach the stream of the opener that wrote it whatever other openers do meanwhile", who, q(o.pid), q(o.hdrRef), q(o.hdrSnap), what))
+				} else if o.oerr == nil && o.ms != nil && string(wire) != string(o.hdrRef)+string(o.payload) {
+					set(fmt.Sprintf("%s: after the header the application wrote %s but the stream holds %s after the header", who, q(o.payload), q(wire[min(len(wire), len(o.hdrRef)):])))
+				}
+			}
+			e.rep.Compare(o.op+tag, o.model, impl, "open.concurrent", "incoming.open:concurrent", e.pickMonitor(mons))
+			if lenClass == 0 {
+				e.rep.Branches["open.concurrent.same-length"]++
+			} else {
+				e.rep.Branches["open.concurrent.other-length"]++
+			}
+			if oneProc {
+				e.rep.Branches["open.concurrent.one-proc"]++
+			}
+			if o.s.wmode != "gate" {
+				e.rep.Branches["open.concurrent.late-complete"]++
+			}
+			// what reached the wire, through the receiving side: dispatched under the opener's ID
+			if fails[i] == "" && len(wire) > 0 {
+				beh := []string{"accepts", "accepts", "handlererr"}[(r+i)%3]
+				c := e.newCase(o.fl.remote, o.X.peerID, beh, e.chunkAny(wire), "roundtrip.concurrent", "ok", o.pid, o.payload)
+				c.openerNote = fmt.Sprintf("%s wrote %s on a link %s→%s", who, q(o.pid), q([]byte(o.fl.local)), q([]byte(o.fl.remote)))
+				Y := e.B
+				if o.X == e.B {
+					Y = e.A
+				}
+				e.runHandle(c, Y)
+				e.rep.Branches["roundtrip.concurrent"]++
+			}
+		}
+		for _, rel := range rels {
+			rel()
+		}
+	}
+}
+
 func validUTF8(b []byte) bool { return utf8.Valid(b) }
 
 // runLinkScenarios: streams on really established links whose situation changes under them.
@@ -1631,13 +1908,14 @@ func (e *engine) setup() func() {
 }
 
 func (e *engine) run() {
-	e.rep.Rule = "real Controller.HandleIncomingStream (direct and through the accept pump of established links) on a real bus with two transport controllers, fake links with per-case peer IDs (binary, non-UTF-8, empty, equal, swapped between links) and scripted chunked streams: honest headers (pid length classes × chunkings × payloads × lookup answers), all 8 splits of the 4-byte prefix, truncation at every offset, the malformed classes of the framing engine, lookup deadline / no handler / stalled peer, overlapping lookups differing in one field; real OpenMountedStream on mounted links yielded by real EstablishLinkWithPeer directives with failing / short writers, fed back through the receiving side; streams that return their final bytes together with io.EOF (header+FIN in one read, truncation at every offset); controller A configured without a peer ID; two streams on one established link (first silent), a stream on a link whose uuid is taken over by a link to another remote, self links; distinct = distinct op line"
+	e.rep.Rule = "real Controller.HandleIncomingStream (direct and through the accept pump of established links) on a real bus with two transport controllers, fake links with per-case peer IDs (binary, non-UTF-8, empty, equal, swapped between links) and scripted chunked streams: honest headers (pid length classes × chunkings × payloads × lookup answers), all 8 splits of the 4-byte prefix, truncation at every offset, the malformed classes of the framing engine, lookup deadline / no handler / stalled peer, overlapping lookups differing in one field; real OpenMountedStream on mounted links yielded by real EstablishLinkWithPeer directives with failing / short writers, fed back through the receiving side; 2-4 openers with different protocol IDs (equal and different lengths) inside OpenMountedStream at once (one link / several links / both controllers, GOMAXPROCS 1 and default) on streams whose Write takes the header in two steps with the later openers marshalling (and one completing) in between, each stream's bytes and the receiving side's dispatch checked against its own opener's ID; streams that return their final bytes together with io.EOF (header+FIN in one read, truncation at every offset); controller A configured without a peer ID; two streams on one established link (first silent), a stream on a link whose uuid is taken over by a link to another remote, self links; distinct = distinct op line"
 	release := e.setup()
 	defer release()
 	full := e.a.Prop == "C07"
 	e.rep.Require("handle.ok.accepts", "handle.ok.handlererr", "handle.ok.wrongtype", "handle.ok.resolvererr",
 		"handle.ok.deadline", "handle.ok.nohandler", "handle.io", "handle.badPrefix", "handle.badLen", "handle.badProto", "handle.badPid",
 		"open.full", "open.fail", "open.short", "open.openerr", "roundtrip.ok", "via.pump",
+		"open.concurrent", "open.concurrent.same-length", "open.concurrent.other-length", "open.concurrent.one-proc", "open.concurrent.late-complete", "roundtrip.concurrent",
 		"pair.differ-remote", "pair.differ-local", "pair.differ-pid", "pair.swapped-peers",
 		"handle.last.ok", "handle.last.io", "scenario.two-streams", "scenario.replaced-link", "scenario.self-link")
 	t0 := time.Now()
@@ -1646,6 +1924,7 @@ func (e *engine) run() {
 	e.runPairs()
 	t2 := time.Now()
 	e.runOpen()
+	e.runConcurrentOpen()
 	t3 := time.Now()
 	e.runLinkScenarios()
 	e.rep.Notes = append(e.rep.Notes, fmt.Sprintf("phases: handle %.1fs pairs %.1fs open %.1fs scenarios %.1fs", t1.Sub(t0).Seconds(), t2.Sub(t1).Seconds(), t3.Sub(t2).Seconds(), time.Since(t3).Seconds()))
